@@ -228,114 +228,32 @@ Module Inst.
 End Inst.
 Import Inst.
 
-Lemma ecdsa_distinct_ok : distinct_check ecdsa_rule Gen.Adapters.ecdsa_rounds Gen.Adapters.ecdsa_broadcast = true.
-Proof. vm_compute. reflexivity. Qed.
-Lemma eddsa_distinct_ok : distinct_check eddsa_rule Gen.Adapters.eddsa_rounds Gen.Adapters.eddsa_broadcast = true.
-Proof. vm_compute. reflexivity. Qed.
-Lemma ecdsa_bc_known_ok : bc_known_check Gen.Adapters.ecdsa_rounds Gen.Adapters.ecdsa_broadcast = true.
-Proof. vm_compute. reflexivity. Qed.
-Lemma eddsa_bc_known_ok : bc_known_check Gen.Adapters.eddsa_rounds Gen.Adapters.eddsa_broadcast = true.
-Proof. vm_compute. reflexivity. Qed.
-Lemma ecdsa_matches_ok :
-  matches_check ecdsa_rule Gen.Adapters.ecdsa_rounds Gen.Adapters.ecdsa_broadcast Gen.AdaptersRouting.ecdsa_routing = true.
-Proof. vm_compute. reflexivity. Qed.
-Lemma eddsa_matches_ok :
-  matches_check eddsa_rule Gen.Adapters.eddsa_rounds Gen.Adapters.eddsa_broadcast Gen.AdaptersRouting.eddsa_routing = true.
-Proof. vm_compute. reflexivity. Qed.
-Lemma ecdsa_covered_ok : covered_check Gen.Adapters.ecdsa_rounds Gen.AdaptersRouting.ecdsa_routing = true.
-Proof. vm_compute. reflexivity. Qed.
-Lemma eddsa_covered_ok : covered_check Gen.Adapters.eddsa_rounds Gen.AdaptersRouting.eddsa_routing = true.
-Proof. vm_compute. reflexivity. Qed.
-Lemma ecdsa_normal_ok : normal_check ecdsa_rule Gen.Adapters.ecdsa_rounds = true.
-Proof. vm_compute. reflexivity. Qed.
-Lemma eddsa_normal_ok : normal_check eddsa_rule Gen.Adapters.eddsa_rounds = true.
-Proof. vm_compute. reflexivity. Qed.
-Lemma ecdsa_phase_url_ok : phase_url_check ecdsa_rule Gen.Adapters.ecdsa_rounds = true.
-Proof. vm_compute. reflexivity. Qed.
-Lemma eddsa_phase_url_ok : phase_url_check eddsa_rule Gen.Adapters.eddsa_rounds = true.
-Proof. vm_compute. reflexivity. Qed.
-
-(* --- the property theorems, stated in full (Props/C19.v only re-exports them) *)
+(* --- statements of the property theorems (Props/C19.v instantiates the checks above by computation: the generated tables
+       enter only there, so that a change of the Go tables can break Props/C19.v and nothing else) *)
 
 Definition rounds_distinct_stmt (cls : string -> N * bool) (sp : string -> string -> bool) : Prop :=
   forall u v, snd (cls u) = true -> snd (cls v) = true -> u <> v -> sp u v = true -> fst (cls u) <> fst (cls v).
-
-Lemma rounds_distinct :
-  rounds_distinct_stmt ecdsa_classify (same_phase ecdsa_rule Gen.Adapters.ecdsa_rounds) /\
-  rounds_distinct_stmt eddsa_classify (same_phase eddsa_rule Gen.Adapters.eddsa_rounds).
-Proof.
-  split; [exact (distinct_check_sound _ _ _ ecdsa_distinct_ok) | exact (distinct_check_sound _ _ _ eddsa_distinct_ok)].
-Qed.
-
-Lemma all_broadcast_urls_known :
-  (forall u, snd (ecdsa_classify u) = true -> exists r, lookup Gen.Adapters.ecdsa_rounds u = Some r) /\
-  (forall u, snd (eddsa_classify u) = true -> exists r, lookup Gen.Adapters.eddsa_rounds u = Some r).
-Proof.
-  split; [exact (bc_known_check_sound ecdsa_rule _ _ ecdsa_bc_known_ok) | exact (bc_known_check_sound eddsa_rule _ _ eddsa_bc_known_ok)].
-Qed.
-
-Lemma matches_library :
-  (forall u b ph, In (u, (b, ph)) Gen.AdaptersRouting.ecdsa_routing ->
-     snd (ecdsa_classify u) = b /\ (exists r, lookup Gen.Adapters.ecdsa_rounds u = Some r) /\
-     is_signing ecdsa_rule Gen.Adapters.ecdsa_rounds u = ph) /\
-  (forall u b ph, In (u, (b, ph)) Gen.AdaptersRouting.eddsa_routing ->
-     snd (eddsa_classify u) = b /\ (exists r, lookup Gen.Adapters.eddsa_rounds u = Some r) /\
-     is_signing eddsa_rule Gen.Adapters.eddsa_rounds u = ph).
-Proof.
-  split; [exact (matches_check_sound _ _ _ _ ecdsa_matches_ok) | exact (matches_check_sound _ _ _ _ eddsa_matches_ok)].
-Qed.
-
-Lemma tables_covered_by_capture :
-  (forall u r, In (u, r) Gen.Adapters.ecdsa_rounds -> exists b ph, In (u, (b, ph)) Gen.AdaptersRouting.ecdsa_routing) /\
-  (forall u r, In (u, r) Gen.Adapters.eddsa_rounds -> exists b ph, In (u, (b, ph)) Gen.AdaptersRouting.eddsa_routing).
-Proof.
-  split; [exact (covered_check_sound _ _ ecdsa_covered_ok) | exact (covered_check_sound _ _ eddsa_covered_ok)].
-Qed.
 
 Definition normalised_stmt (ru : rule) (tbl : list (string * N)) : Prop :=
   forall u r, In (u, r) tbl ->
     1 <= adjust ru r <= N.of_nat (phase_size ru tbl (r_threshold ru <? r)) /\ adjust ru r < 128 /\
     forall v r', In (v, r') tbl -> u <> v -> (r_threshold ru <? r) = (r_threshold ru <? r') -> adjust ru r <> adjust ru r'.
 
-Lemma rounds_normalised :
-  normalised_stmt ecdsa_rule Gen.Adapters.ecdsa_rounds /\ normalised_stmt eddsa_rule Gen.Adapters.eddsa_rounds.
-Proof. split; [exact (normal_check_sound _ _ ecdsa_normal_ok) | exact (normal_check_sound _ _ eddsa_normal_ok)]. Qed.
-
 Definition phase_by_url_stmt (ru : rule) (tbl : list (string * N)) : Prop :=
   forall u r, In (u, r) tbl ->
     is_signing ru tbl u = contains ".signing." u /\ negb (is_signing ru tbl u) = contains ".keygen." u.
 
-Lemma phase_by_url :
-  phase_by_url_stmt ecdsa_rule Gen.Adapters.ecdsa_rounds /\ phase_by_url_stmt eddsa_rule Gen.Adapters.eddsa_rounds.
-Proof. split; [exact (phase_url_check_sound _ _ ecdsa_phase_url_ok) | exact (phase_url_check_sound _ _ eddsa_phase_url_ok)]. Qed.
-
-(* sender binding of the code as it is now (shape generated from OnMsg) *)
-Lemma ecdsa_onmsg_shape : checks_sender ecdsa_onmsg && checks_key ecdsa_onmsg && (key_limit ecdsa_onmsg <=? 65536) = true.
-Proof. vm_compute. reflexivity. Qed.
-Lemma eddsa_onmsg_shape : checks_sender eddsa_onmsg && checks_key eddsa_onmsg && (key_limit eddsa_onmsg <=? 65536) = true.
-Proof. vm_compute. reflexivity. Qed.
+Definition onmsg_shape_ok (c : onmsg_cfg) : bool := checks_sender c && checks_key c && (key_limit c <=? 65536).
 
 Lemma sender_bound_of_shape c :
-  checks_sender c && checks_key c && (key_limit c <=? 65536) = true ->
+  onmsg_shape_ok c = true ->
   forall claimed from, on_msg_cfg c claimed from = Enqueue -> claimed = from /\ claimed < 65536.
 Proof.
+  unfold onmsg_shape_ok.
   intros Hs claimed from H. apply andb_true_iff in Hs. destruct Hs as [Hs H3]. apply andb_true_iff in Hs. destruct Hs as [H1 H2].
   apply N.leb_le in H3. apply on_msg_cfg_enqueue in H. destruct H as [Ha Hb]. split; [now apply Ha |]. specialize (Hb H2). lia.
 Qed.
 
-Lemma sender_bound :
-  (forall claimed from, on_msg_cfg ecdsa_onmsg claimed from = Enqueue -> claimed = from /\ claimed < 65536) /\
-  (forall claimed from, on_msg_cfg eddsa_onmsg claimed from = Enqueue -> claimed = from /\ claimed < 65536).
-Proof. split; [exact (sender_bound_of_shape _ ecdsa_onmsg_shape) | exact (sender_bound_of_shape _ eddsa_onmsg_shape)]. Qed.
-
-Lemma sender_attribution :
-  (forall parsed from k, on_msg_wire ecdsa_onmsg parsed from = Some k -> k = from /\ parsed = true) /\
-  (forall parsed from k, on_msg_wire eddsa_onmsg parsed from = Some k -> k = from /\ parsed = true).
-Proof. split; intros parsed from k; apply on_msg_wire_attribution. Qed.
-
-(* digest binding of the code as it is now (shape generated from Sign) *)
-Lemma ecdsa_compares_ok : ecdsa_compares = true.
-Proof. vm_compute. reflexivity. Qed.
-
-Lemma digest_ecdsa : forall lib d m, ecdsa_sign ecdsa_compares lib d = SOk m -> be_to_N m = hash_to_int d /\ m = lib d.
-Proof. rewrite ecdsa_compares_ok. exact ecdsa_sign_sound. Qed.
+Lemma ecdsa_sign_sound_flag flag : flag = true ->
+  forall lib d m, ecdsa_sign flag lib d = SOk m -> be_to_N m = hash_to_int d /\ m = lib d.
+Proof. intros ->. exact ecdsa_sign_sound. Qed.
